@@ -130,6 +130,7 @@ def specStep (s : SpecSt) : ArgsOp → SpecSt × SpecOut
       | some o => (s, .item o)
   | .slice lo hi => (s, .slice (specSlice s.1 lo hi))
   | .str => (s, .string (s.1.map fun o => ser o.e).flatten)
+  | .extendSlice lo hi => ((s.1 ++ specSlice s.1 lo hi, s.2), .none)
 
 def specRun (s : SpecSt) : List ArgsOp → SpecSt × List SpecOut
   | [] => (s, [])
@@ -138,10 +139,35 @@ def specRun (s : SpecSt) : List ArgsOp → SpecSt × List SpecOut
     let rs := specRun r.1 ops
     (rs.1, r.2 :: rs.2)
 
+/-! ## Two lists -/
+
+/-- Specification state for a history over two lists. -/
+abbrev SpecPair := SpecSt × SpecSt
+
+/-- Allocation is global: a list's counter is brought up to date before it acts. -/
+def specSync (a b : SpecSt) : SpecSt := (a.1, max a.2 b.2)
+
+/-- `l.extend(m)` for two lists is `l ++ m` – the elements of `m` in list order, the same
+objects; an operation on one list leaves the other alone. -/
+def specStepPair (s : SpecPair) : Args.PairOp → SpecPair × SpecOut
+  | .on false op => let r := specStep (specSync s.1 s.2) op; ((r.1, s.2), r.2)
+  | .on true op => let r := specStep (specSync s.2 s.1) op; ((s.1, r.1), r.2)
+  | .extendBy false => (((s.1.1 ++ s.2.1, max s.1.2 s.2.2), s.2), .none)
+  | .extendBy true => ((s.1, (s.2.1 ++ s.1.1, max s.2.2 s.1.2)), .none)
+
+def specRunPair (s : SpecPair) : List Args.PairOp → SpecPair × List SpecOut
+  | [] => (s, [])
+  | op :: ops =>
+    let r := specStepPair s op
+    let rs := specRunPair r.1 ops
+    (rs.1, r.2 :: rs.2)
+
 /-! ## Abstraction, invariant, output relation -/
 
 /-- Abstraction function: forget `.all`. -/
 def abs (st : ArgsSt) : SpecSt := (st.lst, st.next)
+
+def absPair (s : Args.PairSt) : SpecPair := (abs s.tgt, abs s.oth)
 
 /-- The invariant of reachable states: the list holds only group/command objects, and
 `.all` contains every list element *as an object*: for every identity, the list holds that
@@ -151,6 +177,8 @@ to later edits of an argument's contents. -/
 structure Inv (st : ArgsSt) : Prop where
   args : ∀ o ∈ st.lst, isArgObj o.e = true
   objs : ∀ id : Oid, st.lst.countP (fun o => o.id == id) ≤ st.all.countP (ArgItem.isObj id)
+
+def InvPair (s : Args.PairSt) : Prop := Inv s.tgt ∧ Inv s.oth
 
 /-- How an output of the class relates to the output of the list, given a relation for
 returned items. A returned slice must be the sliced list and a well-formed `TexArgs`. -/
